@@ -130,7 +130,7 @@ WithinBudget   == \A v \in Vecs : vec[v].st = "live" => Payload(vec[v].elems) <=
 (***************************************************************************)
 SetVec(S0, v, r) == [S0 EXCEPT !.vec[v] = r]
 
-DefaultPar == [salt |-> 0, cap |-> -1, fault |-> 0, thrown |-> 0]
+DefaultPar == [salt |-> 0, cap |-> -1, fault |-> 0, thrown |-> 0, fx |-> NoFixed]
 ParCap(par, dflt) == IF par.cap < 0 THEN dflt ELSE par.cap
 
 \* --- construction / destruction
@@ -163,7 +163,13 @@ PreEraseRange(S0, v, i, j) == Live(S0, v) /\ 0 <= i /\ i <= j /\ j <= Size(S0, v
 EffEraseRange(S0, v, i, j) == [S0 EXCEPT !.vec[v].elems = SubSeq(@, 1, i) \o SubSeq(@, j + 1, Len(@))]
 
 PreClear(S0, v) == Present(S0, v)            \* also legal on a moved-from vector (C09)
-EffClear(S0, v) == [S0 EXCEPT !.vec[v].elems = <<>>]
+\* clear() on a moved-from (or otherwise unspecified) vector: from then on it is an ordinary empty vector (C09, C18:
+\* "emptied by clear") whose capacity and fixed sizes are whatever it reports - taken from the log
+EffClear(S0, v, par) ==
+  IF S0.vec[v].st = "moved"
+  THEN SetVec(S0, v, [st |-> "live", cap |-> ParCap(par, 0), bud |-> 0, elems |-> <<>>, al |-> S0.vec[v].al,
+                      fx |-> par.fx, dc |-> FALSE])
+  ELSE [S0 EXCEPT !.vec[v].elems = <<>>]
 
 PreReserve(S0, v, n, b) == Live(S0, v) /\ n >= 0 /\ b >= Payload(S0.vec[v].elems)
 EffReserve(S0, v, n, b) ==
@@ -443,7 +449,7 @@ EffOf(S0, n, v, a, par) ==
     [] n = "PopBack"          -> EffPopBack(S0, v)
     [] n = "Erase"            -> EffErase(S0, v, a[1])
     [] n = "EraseRange"       -> EffEraseRange(S0, v, a[1], a[2])
-    [] n = "Clear"            -> EffClear(S0, v)
+    [] n = "Clear"            -> EffClear(S0, v, par)
     [] n = "Reserve"          -> EffReserve(S0, v, a[1], a[2])
     [] n = "CopyConstruct"    -> EffCopyConstruct(S0, v, a[1], par)
     [] n = "CopyAssign"       -> EffCopyAssign(S0, v, a[1], par)
@@ -480,6 +486,7 @@ EffOf(S0, n, v, a, par) ==
 ParOK(S0, n, v, a, par) ==
   IF n \in {"CopyConstruct", "CopyAssign", "MoveAssign"} /\ par.cap >= 0
   THEN par.cap >= Len(S0.vec[a[1]].elems)
+  ELSE IF n = "Clear" THEN Len(par.fx) = NP
   ELSE TRUE
 
 (* Which iterator index erase must return *)
